@@ -6,6 +6,8 @@ association, on one rejected context (it must reach no service).
 """
 from __future__ import annotations
 
+import contextlib
+
 import threading
 
 from . import c09, fixtures as F, inject, libmap, refcodec as R, tcpnet
@@ -14,6 +16,18 @@ from .common import rng
 
 ACCEPT_PATH = ['pynetdicom2.asceprovider.AssociationAcceptor.accept',
                'pynetdicom2.asceprovider.AssociationAcceptor._establish']
+
+
+@contextlib.contextmanager
+def started_then_configured(server, service):
+    """The entity is started the documented way (``with ae:``) and gets its service afterwards:
+    what it serves is what is configured when the association is requested."""
+    server.__enter__()
+    try:
+        server.add_scp(service)
+        yield server
+    finally:
+        server.__exit__(None, None, None)
 
 
 def run_case(res, case, attempt=0):
@@ -94,8 +108,12 @@ def run_case(res, case, attempt=0):
             server = Server('TCPSCP', 0, supported_ts=[t.decode() for t in supported])
             server.net = net
             server.timeout = 5 if not attempt else 30
-            server.add_scp(service)
-            with tcpnet.serving(server):
+            late = i % 6 == 1
+            if not late:
+                server.add_scp(service)
+            else:
+                res.count('sim.service-added-while-serving')
+            with (started_then_configured(server, service) if late else tcpnet.serving(server)):
                 peer = tcpnet.RefPeer.connect(server.port, timeout=5.0 if not attempt else 30.0)
                 try:
                     reply = peer.associate(contexts, called=b'TCPSCP', calling=b'REF-REQUESTOR',
